@@ -738,6 +738,7 @@ func (d *Decoder) processPropertyElt(ectx evaluationContext, startElement xml.St
 			}
 
 			var resourceAttr, nodeIdAttr, datatypeAttr *unifiedAttr
+			var hasTypeAttr bool
 
 			var usedNameAttributes []string
 
@@ -760,6 +761,9 @@ func (d *Decoder) processPropertyElt(ectx evaluationContext, startElement xml.St
 					usedNameAttributes = append(usedNameAttributes, "rdf:nodeID")
 				case internal.Local_Datatype_Syntax:
 					datatypeAttr = &attr
+				case internal.Local_Type_Property:
+					// a property attribute of the object; handled with the other property attributes below
+					hasTypeAttr = true
 				default:
 					return d.newTokenAttrError(
 						AttributeNotAllowedError{
@@ -794,7 +798,7 @@ func (d *Decoder) processPropertyElt(ectx evaluationContext, startElement xml.St
 				}
 			}
 
-			if len(otherAttrList) == 0 && resourceAttr == nil && nodeIdAttr == nil && datatypeAttr == nil {
+			if len(otherAttrList) == 0 && resourceAttr == nil && nodeIdAttr == nil && datatypeAttr == nil && !hasTypeAttr {
 				lit := rdf.Literal{
 					Datatype:    xsdiri.String_Datatype,
 					LexicalForm: "",
